@@ -7,9 +7,9 @@ not mechanically derived from `/repo/src`:
 
 * `g0`          — IEC 62106 (EN 50067) Annex E, code table E.1: the "complete EBU Latin based
                   repertoire" (RDS basic character set G0), bytes 0x20..0xFF, as Unicode code points.
-* `countries`   — the entities of the library's `rdsparser_country` enumeration (enumerator
-                  order and the library's spellings of the names are the only things taken from
-                  `/repo/include/librdsparser.h`), each with its ISO 3166-1 alpha-2 code as
+* `Country`, `countries` — the entities of the library's `rdsparser_country` enumeration
+                  (enumerator order and the library's spellings of the names are the only things
+                  taken from `/repo/include/librdsparser.h`), each with its ISO 3166-1 alpha-2 code as
                   assigned by ISO 3166/MA ("XK": user-assigned code in general use for Kosovo;
                   "--": not a single ISO 3166-1 country).
 * `iecColumns`  — IEC 62106-4:2018 (Annex D / Annex N of EN 50067:1998, IEC 62106:2009/2015),
@@ -86,220 +86,282 @@ def g0Value (b : Nat) : Nat :=
 def narrowValue (b : Nat) : Nat :=
   if b == 0x0D then 0 else if b < 0x20 then notStored else if b < 0x7F then b else 0x20
 
-/-! ## C18 — countries: enumeration order, names (library spellings), ISO 3166-1 alpha-2 -/
+/-! ## C18 — countries: enumeration, names (library spellings), ISO 3166-1 alpha-2 -/
 
-/-- enumerators 1..220 of `rdsparser_country` in order: (name as spelled by the library,
-ISO 3166-1 alpha-2 code decided here). `"--"`: not a single ISO 3166-1 country/territory. -/
-def countries : List (String × String) := [
-  -- European broadcasting area, Africa, former USSR (the header interleaves two columns)
-  ("Albania", "AL"), ("Estonia", "EE"), ("Algeria", "DZ"), ("Ethiopia", "ET"),
-  ("Andorra", "AD"), ("Angola", "AO"), ("Finland", "FI"), ("Armenia", "AM"),
-  ("France", "FR"),
-  -- Ascension has no code of its own in ISO 3166-1 ("AC" is only exceptionally reserved);
-  -- it is part of the entry SH "Saint Helena, Ascension and Tristan da Cunha"
-  ("Ascension Island", "SH"),
-  ("Gabon", "GA"), ("Austria", "AT"), ("Gambia", "GM"), ("Azerbaijan", "AZ"),
-  ("Georgia", "GE"), ("Germany", "DE"), ("Bahrein", "BH"), ("Ghana", "GH"),
-  ("Belarus", "BY"), ("Gibraltar", "GI"), ("Belgium", "BE"), ("Greece", "GR"),
-  ("Benin", "BJ"), ("Guinea", "GN"), ("Bosnia Herzegovina", "BA"), ("Guinea-Bissau", "GW"),
-  ("Botswana", "BW"), ("Hungary", "HU"), ("Bulgaria", "BG"), ("Iceland", "IS"),
-  ("Burkina Faso", "BF"), ("Iraq", "IQ"), ("Burundi", "BI"), ("Ireland", "IE"),
-  -- Cabinda is an exclave province of Angola, not an ISO 3166-1 entity
-  ("Cabinda", "--"),
-  ("Israel", "IL"), ("Cameroon", "CM"), ("Italy", "IT"), ("Jordan", "JO"),
-  ("Cape Verde", "CV"), ("Kazakhstan", "KZ"), ("Central African Republic", "CF"), ("Kenya", "KE"),
-  ("Chad", "TD"),
-  ("Kosovo", "XK"),  -- user-assigned, in general use
-  ("Comoros", "KM"), ("Kuwait", "KW"), ("DR Congo", "CD"), ("Kyrgyzstan", "KG"),
-  ("Republic of Congo", "CG"), ("Latvia", "LV"), ("Cote d'Ivoire", "CI"), ("Lebanon", "LB"),
-  ("Croatia", "HR"), ("Lesotho", "LS"), ("Cyprus", "CY"), ("Liberia", "LR"),
-  ("Czechia", "CZ"), ("Libya", "LY"), ("Denmark", "DK"), ("Liechtenstein", "LI"),
-  ("Djiboutia", "DJ"), ("Lithuania", "LT"), ("Egypt", "EG"), ("Luxembourg", "LU"),
-  ("Equatorial Guinea", "GQ"), ("Macedonia", "MK"), ("Eritrea", "ER"), ("Madagascar", "MG"),
-  ("Seychelles", "SC"), ("Malawi", "MW"), ("Sierra Leone", "SL"), ("Mali", "ML"),
-  ("Slovakia", "SK"), ("Malta", "MT"), ("Slovenia", "SI"), ("Mauritania", "MR"),
-  ("Somalia", "SO"), ("Mauritius", "MU"), ("South Africa", "ZA"), ("Moldova", "MD"),
-  ("South Sudan", "SS"), ("Monaco", "MC"), ("Spain", "ES"), ("Mongolia", "MN"),
-  ("Sudan", "SD"), ("Montenegro", "ME"), ("Swaziland", "SZ"), ("Morocco", "MA"),
-  ("Sweden", "SE"), ("Mozambique", "MZ"), ("Switzerland", "CH"), ("Namibia", "NA"),
-  ("Syria", "SY"), ("Netherlands", "NL"), ("Tajikistan", "TJ"), ("Niger", "NE"),
-  ("Tanzania", "TZ"), ("Nigeria", "NG"), ("Togo", "TG"), ("Norway", "NO"),
-  ("Tunisia", "TN"), ("Oman", "OM"), ("Turkey", "TR"), ("Palestine", "PS"),
-  ("Turkmenistan", "TM"), ("Poland", "PL"), ("Uganda", "UG"), ("Portugal", "PT"),
-  ("Ukraine", "UA"), ("Qatar", "QA"), ("United Arab Emirates", "AE"), ("Romania", "RO"),
-  ("United Kingdom", "GB"), ("Russia", "RU"), ("Uzbekistan", "UZ"), ("Rwanda", "RW"),
-  ("Vatican", "VA"), ("San Marino", "SM"), ("Western Sahara", "EH"),
-  ("Sao Tome and Principe", "ST"), ("Yemen", "YE"), ("Saudi Arabia", "SA"), ("Zambia", "ZM"),
-  ("Senegal", "SN"), ("Zimbabwe", "ZW"), ("Serbia", "RS"),
-  -- the Americas
-  ("Anguilla", "AI"), ("Guyana", "GY"), ("Antigua and Barbuda", "AG"), ("Haiti", "HT"),
-  ("Argentina", "AR"), ("Honduras", "HN"), ("Aruba", "AW"), ("Jamaica", "JM"),
-  ("Bahamas", "BS"), ("Martinique", "MQ"), ("Barbados", "BB"), ("Mexico", "MX"),
-  ("Belize", "BZ"), ("Montserrat", "MS"),
-  ("Brazil/Bermuda", "--"),   -- shared allocation: BR and BM
-  ("Brazil/AN", "--"),        -- shared allocation: BR and the former Netherlands Antilles
-  ("Bolivia", "BO"), ("Nicaragua", "NI"), ("Brazil", "BR"), ("Panama", "PA"),
-  ("Canada", "CA"), ("Paraguay", "PY"), ("Cayman Islands", "KY"), ("Peru", "PE"),
-  ("Chile", "CL"),
-  ("USA/VI/PR", "--"),        -- shared allocation: US, VI (US Virgin Islands) and PR
-  ("Colombia", "CO"), ("St. Kitts", "KN"), ("Costa Rica", "CR"), ("St. Lucia", "LC"),
-  ("Cuba", "CU"), ("St. Pierre and Miquelon", "PM"), ("Dominica", "DM"), ("St. Vincent", "VC"),
-  ("Dominican Republic", "DO"), ("Suriname", "SR"),
-  ("El Salvador", "SV"),
-  ("Trinidad and Tobago", "TT"),
-  ("Turks and Caicos islands", "TC"),
-  ("Falkland Islands", "FK"), ("Greenland", "GL"), ("Uruguay", "UY"), ("Grenada", "GD"),
-  ("Venezuela", "VE"), ("Guadeloupe", "GP"),
-  -- the standard's "Virgin Islands [British]"; the US Virgin Islands are in "USA/VI/PR"
-  ("Virgin Islands", "VG"),
-  ("Guatemala", "GT"),
-  -- Asia and the Pacific
-  ("Afghanistan", "AF"), ("South Korea", "KR"), ("Laos", "LA"),
-  ("Australia Capital Territory", "AU"), ("Macao", "MO"),
-  ("Australia New South Wales", "AU"), ("Malaysia", "MY"),
-  ("Australia Victoria", "AU"), ("Maldives", "MV"),
-  ("Australia Queensland", "AU"), ("Marshall Islands", "MH"),
-  ("Australia South Australia", "AU"), ("Micronesia", "FM"),
-  ("Australia Western Australia", "AU"), ("Myanmar", "MM"),
-  ("Australia Tasmania", "AU"), ("Nauru", "NR"),
-  ("Australia Northern Territory", "AU"), ("Nepal", "NP"),
-  ("Bangladesh", "BD"), ("New Zealand", "NZ"), ("Bhutan", "BT"), ("Pakistan", "PK"),
-  ("Brunei Darussalam", "BN"), ("Papua New Guinea", "PG"), ("Cambodia", "KH"),
-  ("Philippines", "PH"), ("China", "CN"), ("Samoa", "WS"), ("Singapore", "SG"),
-  ("Solomon Islands", "SB"), ("Fiji", "FJ"), ("Sri Lanka", "LK"), ("Hong Kong", "HK"),
-  ("Taiwan", "TW"), ("India", "IN"), ("Thailand", "TH"), ("Indonesia", "ID"),
-  ("Tonga", "TO"), ("Iran", "IR"), ("Vanuatu", "VU"), ("Japan", "JP"),
-  ("Vietnam", "VN"), ("Kiribati", "KI"), ("North Korea", "KP"),
-  ("Brazil/Equator", "--")]   -- shared allocation: BR and Ecuador ("Équateur")
+/-- The entities of `rdsparser_country`, in the order of the C enumeration
+(`RDSPARSER_COUNTRY_UNKNOWN` = 0 … `RDSPARSER_COUNTRY_BRAZIL_OR_EQUATOR` = 220): the constructor
+index *is* the enumerator. The C header lists the entities of IEC 62106-4 in three blocks
+(Europe/Africa, the Americas, Asia/Pacific), each interleaving the two columns of the standard's
+alphabetical table. -/
+inductive Country
+  | unknown | albania | estonia | algeria | ethiopia | andorra | angola | finland | armenia | france
+  | ascensionIsland | gabon | austria | gambia | azerbaijan | georgia | germany | bahrein | ghana
+  | belarus | gibraltar | belgium | greece | benin | guinea | bosniaHerzegovina | guineaBissau
+  | botswana | hungary | bulgaria | iceland | burkinaFaso | iraq | burundi | ireland | cabinda
+  | israel | cameroon | italy | jordan | capeVerde | kazakhstan | centralAfricanRepublic | kenya
+  | chad | kosovo | comoros | kuwait | drCongo | kyrgyzstan | republicOfCongo | latvia | coteDIvoire
+  | lebanon | croatia | lesotho | cyprus | liberia | czechia | libya | denmark | liechtenstein
+  | djiboutia | lithuania | egypt | luxembourg | equatorialGuinea | macedonia | eritrea | madagascar
+  | seychelles | malawi | sierraLeone | mali | slovakia | malta | slovenia | mauritania | somalia
+  | mauritius | southAfrica | moldova | southSudan | monaco | spain | mongolia | sudan | montenegro
+  | swaziland | morocco | sweden | mozambique | switzerland | namibia | syria | netherlands
+  | tajikistan | niger | tanzania | nigeria | togo | norway | tunisia | oman | turkey | palestine
+  | turkmenistan | poland | uganda | portugal | ukraine | qatar | unitedArabEmirates | romania
+  | unitedKingdom | russia | uzbekistan | rwanda | vatican | sanMarino | westernSahara
+  | saoTomeAndPrincipe | yemen | saudiArabia | zambia | senegal | zimbabwe | serbia | anguilla
+  | guyana | antiguaAndBarbuda | haiti | argentina | honduras | aruba | jamaica | bahamas
+  | martinique | barbados | mexico | belize | montserrat | brazilOrBermuda
+  | brazilOrNetherlandsAntilles | bolivia | nicaragua | brazil | panama | canada | paraguay
+  | caymanIslands | peru | chile | usaOrViOrPr | colombia | stKitts | costaRica | stLucia | cuba
+  | stPierreAndMiquelon | dominica | stVincent | dominicanRepublic | suriname | elSalvador
+  | trinidadAndTobago | turksAndCaicosIslands | falklandIslands | greenland | uruguay | grenada
+  | venezuela | guadeloupe | virginIslands | guatemala | afghanistan | southKorea | laos
+  | australiaCapitalTerritory | macao | australiaNewSouthWales | malaysia | australiaVictoria
+  | maldives | australiaQueensland | marshallIslands | australiaSouthAustralia | micronesia
+  | australiaWesternAustralia | myanmar | australiaTasmania | nauru | australiaNorthernTerritory
+  | nepal | bangladesh | newZealand | bhutan | pakistan | bruneiDarussalam | papuaNewGuinea
+  | cambodia | philippines | china | samoa | singapore | solomonIslands | fiji | sriLanka | hongKong
+  | taiwan | india | thailand | indonesia | tonga | iran | vanuatu | japan | vietnam | kiribati
+  | northKorea | brazilOrEquator
 
-/-- name ↦ ISO 3166-1 alpha-2 (association list keyed by the library's spelling) -/
-def iso3166 : List (String × String) := countries
-
-/-- ISO code of the entity called `name`; `"!!"` (which no lookup ever returns) if the name is
-not in the reference, so that an unknown name can never pass a check silently. -/
-def isoOf (name : String) : String := (iso3166.lookup name).getD "!!"
-
-/-- names by enumerator: 0 = `RDSPARSER_COUNTRY_UNKNOWN`, 1..220 -/
-def countryNames : List String := "Unknown" :: countries.map Prod.fst
+/-- the value of the C enumerator -/
+def Country.enumerator (c : Country) : Nat := c.ctorIdx
 
 /-- `RDSPARSER_COUNTRY_COUNT` -/
 def countryCount : Nat := 221
 
-/-- groups of entries that denote (parts of) the same ISO 3166-1 country and may therefore
-share an alpha-2 code -/
-def aliasClasses : List (List String) := [
-  ["Australia Capital Territory", "Australia New South Wales", "Australia Victoria",
-   "Australia Queensland", "Australia South Australia", "Australia Western Australia",
-   "Australia Tasmania", "Australia Northern Territory"]]
+/-- Every enumerator with the name the library gives it and its ISO 3166-1 alpha-2 code as
+decided here (ISO 3166/MA assignments; `"--"`: not a single ISO 3166-1 country or territory).
+Row `i` is enumerator `i` (theorem `tbl_reference_shape`). -/
+def countries : List (Country × String × String) := [
+  (.unknown, "Unknown", "??"),   -- RDSPARSER_COUNTRY_UNKNOWN; "??" is the lookup's out-of-range answer
+  -- European broadcasting area, Africa, former USSR (the header interleaves two columns)
+  (.albania, "Albania", "AL"), (.estonia, "Estonia", "EE"), (.algeria, "Algeria", "DZ"), (.ethiopia, "Ethiopia", "ET"),
+  (.andorra, "Andorra", "AD"), (.angola, "Angola", "AO"), (.finland, "Finland", "FI"), (.armenia, "Armenia", "AM"),
+  (.france, "France", "FR"),
+  -- Ascension has no code of its own in ISO 3166-1 ("AC" is only exceptionally reserved);
+  -- it is part of the entry SH "Saint Helena, Ascension and Tristan da Cunha"
+  (.ascensionIsland, "Ascension Island", "SH"),
+  (.gabon, "Gabon", "GA"), (.austria, "Austria", "AT"), (.gambia, "Gambia", "GM"), (.azerbaijan, "Azerbaijan", "AZ"),
+  (.georgia, "Georgia", "GE"), (.germany, "Germany", "DE"), (.bahrein, "Bahrein", "BH"), (.ghana, "Ghana", "GH"),
+  (.belarus, "Belarus", "BY"), (.gibraltar, "Gibraltar", "GI"), (.belgium, "Belgium", "BE"), (.greece, "Greece", "GR"),
+  (.benin, "Benin", "BJ"), (.guinea, "Guinea", "GN"), (.bosniaHerzegovina, "Bosnia Herzegovina", "BA"), (.guineaBissau, "Guinea-Bissau", "GW"),
+  (.botswana, "Botswana", "BW"), (.hungary, "Hungary", "HU"), (.bulgaria, "Bulgaria", "BG"), (.iceland, "Iceland", "IS"),
+  (.burkinaFaso, "Burkina Faso", "BF"), (.iraq, "Iraq", "IQ"), (.burundi, "Burundi", "BI"), (.ireland, "Ireland", "IE"),
+  -- Cabinda is an exclave province of Angola, not an ISO 3166-1 entity
+  (.cabinda, "Cabinda", "--"),
+  (.israel, "Israel", "IL"), (.cameroon, "Cameroon", "CM"), (.italy, "Italy", "IT"), (.jordan, "Jordan", "JO"),
+  (.capeVerde, "Cape Verde", "CV"), (.kazakhstan, "Kazakhstan", "KZ"), (.centralAfricanRepublic, "Central African Republic", "CF"), (.kenya, "Kenya", "KE"),
+  (.chad, "Chad", "TD"),
+  (.kosovo, "Kosovo", "XK"),  -- user-assigned, in general use
+  (.comoros, "Comoros", "KM"), (.kuwait, "Kuwait", "KW"), (.drCongo, "DR Congo", "CD"), (.kyrgyzstan, "Kyrgyzstan", "KG"),
+  (.republicOfCongo, "Republic of Congo", "CG"), (.latvia, "Latvia", "LV"), (.coteDIvoire, "Cote d'Ivoire", "CI"), (.lebanon, "Lebanon", "LB"),
+  (.croatia, "Croatia", "HR"), (.lesotho, "Lesotho", "LS"), (.cyprus, "Cyprus", "CY"), (.liberia, "Liberia", "LR"),
+  (.czechia, "Czechia", "CZ"), (.libya, "Libya", "LY"), (.denmark, "Denmark", "DK"), (.liechtenstein, "Liechtenstein", "LI"),
+  (.djiboutia, "Djiboutia", "DJ"), (.lithuania, "Lithuania", "LT"), (.egypt, "Egypt", "EG"), (.luxembourg, "Luxembourg", "LU"),
+  (.equatorialGuinea, "Equatorial Guinea", "GQ"), (.macedonia, "Macedonia", "MK"), (.eritrea, "Eritrea", "ER"), (.madagascar, "Madagascar", "MG"),
+  (.seychelles, "Seychelles", "SC"), (.malawi, "Malawi", "MW"), (.sierraLeone, "Sierra Leone", "SL"), (.mali, "Mali", "ML"),
+  (.slovakia, "Slovakia", "SK"), (.malta, "Malta", "MT"), (.slovenia, "Slovenia", "SI"), (.mauritania, "Mauritania", "MR"),
+  (.somalia, "Somalia", "SO"), (.mauritius, "Mauritius", "MU"), (.southAfrica, "South Africa", "ZA"), (.moldova, "Moldova", "MD"),
+  (.southSudan, "South Sudan", "SS"), (.monaco, "Monaco", "MC"), (.spain, "Spain", "ES"), (.mongolia, "Mongolia", "MN"),
+  (.sudan, "Sudan", "SD"), (.montenegro, "Montenegro", "ME"), (.swaziland, "Swaziland", "SZ"), (.morocco, "Morocco", "MA"),
+  (.sweden, "Sweden", "SE"), (.mozambique, "Mozambique", "MZ"), (.switzerland, "Switzerland", "CH"), (.namibia, "Namibia", "NA"),
+  (.syria, "Syria", "SY"), (.netherlands, "Netherlands", "NL"), (.tajikistan, "Tajikistan", "TJ"), (.niger, "Niger", "NE"),
+  (.tanzania, "Tanzania", "TZ"), (.nigeria, "Nigeria", "NG"), (.togo, "Togo", "TG"), (.norway, "Norway", "NO"),
+  (.tunisia, "Tunisia", "TN"), (.oman, "Oman", "OM"), (.turkey, "Turkey", "TR"), (.palestine, "Palestine", "PS"),
+  (.turkmenistan, "Turkmenistan", "TM"), (.poland, "Poland", "PL"), (.uganda, "Uganda", "UG"), (.portugal, "Portugal", "PT"),
+  (.ukraine, "Ukraine", "UA"), (.qatar, "Qatar", "QA"), (.unitedArabEmirates, "United Arab Emirates", "AE"), (.romania, "Romania", "RO"),
+  (.unitedKingdom, "United Kingdom", "GB"), (.russia, "Russia", "RU"), (.uzbekistan, "Uzbekistan", "UZ"), (.rwanda, "Rwanda", "RW"),
+  (.vatican, "Vatican", "VA"), (.sanMarino, "San Marino", "SM"), (.westernSahara, "Western Sahara", "EH"),
+  (.saoTomeAndPrincipe, "Sao Tome and Principe", "ST"), (.yemen, "Yemen", "YE"), (.saudiArabia, "Saudi Arabia", "SA"), (.zambia, "Zambia", "ZM"),
+  (.senegal, "Senegal", "SN"), (.zimbabwe, "Zimbabwe", "ZW"), (.serbia, "Serbia", "RS"),
+  -- the Americas
+  (.anguilla, "Anguilla", "AI"), (.guyana, "Guyana", "GY"), (.antiguaAndBarbuda, "Antigua and Barbuda", "AG"), (.haiti, "Haiti", "HT"),
+  (.argentina, "Argentina", "AR"), (.honduras, "Honduras", "HN"), (.aruba, "Aruba", "AW"), (.jamaica, "Jamaica", "JM"),
+  (.bahamas, "Bahamas", "BS"), (.martinique, "Martinique", "MQ"), (.barbados, "Barbados", "BB"), (.mexico, "Mexico", "MX"),
+  (.belize, "Belize", "BZ"), (.montserrat, "Montserrat", "MS"),
+  (.brazilOrBermuda, "Brazil/Bermuda", "--"),   -- shared allocation: BR and BM
+  (.brazilOrNetherlandsAntilles, "Brazil/AN", "--"),        -- shared allocation: BR and the former Netherlands Antilles
+  (.bolivia, "Bolivia", "BO"), (.nicaragua, "Nicaragua", "NI"), (.brazil, "Brazil", "BR"), (.panama, "Panama", "PA"),
+  (.canada, "Canada", "CA"), (.paraguay, "Paraguay", "PY"), (.caymanIslands, "Cayman Islands", "KY"), (.peru, "Peru", "PE"),
+  (.chile, "Chile", "CL"),
+  (.usaOrViOrPr, "USA/VI/PR", "--"),        -- shared allocation: US, VI (US Virgin Islands) and PR
+  (.colombia, "Colombia", "CO"), (.stKitts, "St. Kitts", "KN"), (.costaRica, "Costa Rica", "CR"), (.stLucia, "St. Lucia", "LC"),
+  (.cuba, "Cuba", "CU"), (.stPierreAndMiquelon, "St. Pierre and Miquelon", "PM"), (.dominica, "Dominica", "DM"), (.stVincent, "St. Vincent", "VC"),
+  (.dominicanRepublic, "Dominican Republic", "DO"), (.suriname, "Suriname", "SR"),
+  (.elSalvador, "El Salvador", "SV"),
+  (.trinidadAndTobago, "Trinidad and Tobago", "TT"),
+  (.turksAndCaicosIslands, "Turks and Caicos islands", "TC"),
+  (.falklandIslands, "Falkland Islands", "FK"), (.greenland, "Greenland", "GL"), (.uruguay, "Uruguay", "UY"), (.grenada, "Grenada", "GD"),
+  (.venezuela, "Venezuela", "VE"), (.guadeloupe, "Guadeloupe", "GP"),
+  -- the standard's "Virgin Islands [British]"; the US Virgin Islands are in "USA/VI/PR"
+  (.virginIslands, "Virgin Islands", "VG"),
+  (.guatemala, "Guatemala", "GT"),
+  -- Asia and the Pacific
+  (.afghanistan, "Afghanistan", "AF"), (.southKorea, "South Korea", "KR"), (.laos, "Laos", "LA"),
+  (.australiaCapitalTerritory, "Australia Capital Territory", "AU"), (.macao, "Macao", "MO"),
+  (.australiaNewSouthWales, "Australia New South Wales", "AU"), (.malaysia, "Malaysia", "MY"),
+  (.australiaVictoria, "Australia Victoria", "AU"), (.maldives, "Maldives", "MV"),
+  (.australiaQueensland, "Australia Queensland", "AU"), (.marshallIslands, "Marshall Islands", "MH"),
+  (.australiaSouthAustralia, "Australia South Australia", "AU"), (.micronesia, "Micronesia", "FM"),
+  (.australiaWesternAustralia, "Australia Western Australia", "AU"), (.myanmar, "Myanmar", "MM"),
+  (.australiaTasmania, "Australia Tasmania", "AU"), (.nauru, "Nauru", "NR"),
+  (.australiaNorthernTerritory, "Australia Northern Territory", "AU"), (.nepal, "Nepal", "NP"),
+  (.bangladesh, "Bangladesh", "BD"), (.newZealand, "New Zealand", "NZ"), (.bhutan, "Bhutan", "BT"), (.pakistan, "Pakistan", "PK"),
+  (.bruneiDarussalam, "Brunei Darussalam", "BN"), (.papuaNewGuinea, "Papua New Guinea", "PG"), (.cambodia, "Cambodia", "KH"),
+  (.philippines, "Philippines", "PH"), (.china, "China", "CN"), (.samoa, "Samoa", "WS"), (.singapore, "Singapore", "SG"),
+  (.solomonIslands, "Solomon Islands", "SB"), (.fiji, "Fiji", "FJ"), (.sriLanka, "Sri Lanka", "LK"), (.hongKong, "Hong Kong", "HK"),
+  (.taiwan, "Taiwan", "TW"), (.india, "India", "IN"), (.thailand, "Thailand", "TH"), (.indonesia, "Indonesia", "ID"),
+  (.tonga, "Tonga", "TO"), (.iran, "Iran", "IR"), (.vanuatu, "Vanuatu", "VU"), (.japan, "Japan", "JP"),
+  (.vietnam, "Vietnam", "VN"), (.kiribati, "Kiribati", "KI"), (.northKorea, "North Korea", "KP"),
+  (.brazilOrEquator, "Brazil/Equator", "--")]   -- shared allocation: BR and Ecuador ("Équateur")
 
-/-- do the two names denote the same country (equal, or in one alias class)? -/
-def sameCountry (a b : String) : Bool :=
-  a == b || aliasClasses.any (fun c => c.contains a && c.contains b)
 
-/-- a well-formed result of the ISO lookup: two capital letters, or the `"--"` placeholder -/
-def isoShape (s : String) : Bool :=
-  s == "--" || (s.length == 2 && s.toList.all (fun c => 'A' ≤ c && c ≤ 'Z'))
+/-- name ↦ ISO 3166-1 alpha-2 for the 220 real entries (association list keyed by the library's
+spelling) -/
+def iso3166 : List (String × String) := (countries.drop 1).map Prod.snd
+
+/-- ISO code of the entity called `name`; `"!!"` (which no lookup ever returns) if the name is
+not in the reference, so that an unknown name can never pass a check silently. For the driver;
+the theorems compare row by row. -/
+def isoOf (name : String) : String := (iso3166.lookup name).getD "!!"
+
+/-- the row of enumerator / lookup argument `a`; arguments ≥ `countryCount` behave like "unknown" -/
+def countryRow (a : Nat) : Country × String × String := countries.getD a (.unknown, "Unknown", "??")
+
+/-- what `rdsparser_country_lookup_name` must return for argument `a` (0..255) -/
+def expectedName (a : Nat) : Option String := some (countryRow a).2.1
+
+/-- what `rdsparser_country_lookup_iso` must return for argument `a` (0..255) -/
+def expectedIso (a : Nat) : Option String := some (countryRow a).2.2
+
+/-- names by enumerator -/
+def countryNames : List String := countries.map (·.2.1)
+
+/-- groups of enumerators that denote parts of the same ISO 3166-1 country and may therefore
+share its alpha-2 code -/
+def aliasClasses : List (List Country) := [
+  [.australiaCapitalTerritory, .australiaNewSouthWales, .australiaVictoria, .australiaQueensland,
+   .australiaSouthAustralia, .australiaWesternAustralia, .australiaTasmania,
+   .australiaNorthernTerritory]]
+
+/-- do enumerators `i` and `j` denote the same country (equal, or in one alias class)? -/
+def sameCountry (i j : Nat) : Bool :=
+  i == j || aliasClasses.any (fun c =>
+    (c.map Country.enumerator).contains i && (c.map Country.enumerator).contains j)
+
+/-- numeric form of a well-formed alpha-2 code: `256·c₁ + c₂` for two capital letters, 0 for
+anything else (in particular for the `"--"` and `"??"` placeholders) -/
+def isoCode (s : String) : Nat :=
+  match s.toList with
+  | [a, b] => if 'A' ≤ a && a ≤ 'Z' && 'A' ≤ b && b ≤ 'Z' then 256 * a.toNat + b.toNat else 0
+  | _ => 0
+
+/-- a well-formed in-range result of the ISO lookup: two capital letters, or `"--"` -/
+def isoShape (s : String) : Bool := isoCode s != 0 || s == "--"
 
 /-! ## C11 — IEC 62106-4 country/area identification (ECC × PI country nibble) -/
 
-/-- For each allocated extended country code: the owner of PI country nibble 1, 2, …, F
-(`""` = not allocated, or allocated to an area for which the library has no enumerator — see the
-notes at the end of the section). Names are those of `countries`. -/
-def iecColumns : List (Nat × List String) := [
+/-- "not allocated" in `iecColumns` -/
+abbrev na : Country := .unknown
+
+/-- For each allocated extended country code, in ascending order: the owner of PI country nibble
+1, 2, …, F (`na` = not allocated, or allocated to an area for which the library has no
+enumerator: French Guiana A3/5, Zanzibar D2/D of the older editions). -/
+def iecColumns : List (Nat × List Country) := [
   -- ITU region 2
-  (0xA0, [ "USA/VI/PR", "USA/VI/PR", "USA/VI/PR", "USA/VI/PR", "USA/VI/PR",      -- 1..5
-           "USA/VI/PR", "USA/VI/PR", "USA/VI/PR", "USA/VI/PR", "USA/VI/PR",      -- 6..A
-           "USA/VI/PR", "", "USA/VI/PR", "USA/VI/PR", "" ]),                     -- B C D E F
-  (0xA1, [ "", "", "", "", "", "", "", "", "", "",
-           "Canada", "Canada", "Canada", "Canada", "Greenland" ]),
-  (0xA2, [ "Anguilla", "Antigua and Barbuda", "Brazil/Equator", "Falkland Islands", "Barbados",
-           "Belize", "Cayman Islands", "Costa Rica", "Cuba", "Argentina",
-           "Brazil", "Brazil/Bermuda", "Brazil/AN", "Guadeloupe", "Bahamas" ]),
-  (0xA3, [ "Bolivia", "Colombia", "Jamaica", "Martinique", "" /- French Guiana -/,
-           "Paraguay", "Nicaragua", "", "Panama", "Dominica",
-           "Dominican Republic", "Chile", "Grenada", "Turks and Caicos islands", "Guyana" ]),
-  (0xA4, [ "Guatemala", "Honduras", "Aruba", "", "Montserrat",
-           "Trinidad and Tobago", "Peru", "Suriname", "Uruguay", "St. Kitts",
-           "St. Lucia", "El Salvador", "Haiti", "Venezuela", "Virgin Islands" ]),
-  (0xA5, [ "", "", "", "", "", "", "", "", "", "",
-           "Mexico", "St. Vincent", "Mexico", "Mexico", "Mexico" ]),
-  (0xA6, [ "", "", "", "", "", "", "", "", "", "",
-           "", "", "", "", "St. Pierre and Miquelon" ]),
+  (0xA0, [ .usaOrViOrPr, .usaOrViOrPr, .usaOrViOrPr, .usaOrViOrPr, .usaOrViOrPr,
+           .usaOrViOrPr, .usaOrViOrPr, .usaOrViOrPr, .usaOrViOrPr, .usaOrViOrPr,
+           .usaOrViOrPr, na, .usaOrViOrPr, .usaOrViOrPr, na ]),
+  (0xA1, [ na, na, na, na, na, na, na, na, na, na,
+           .canada, .canada, .canada, .canada, .greenland ]),
+  (0xA2, [ .anguilla, .antiguaAndBarbuda, .brazilOrEquator, .falklandIslands, .barbados,
+           .belize, .caymanIslands, .costaRica, .cuba, .argentina,
+           .brazil, .brazilOrBermuda, .brazilOrNetherlandsAntilles, .guadeloupe, .bahamas ]),
+  (0xA3, [ .bolivia, .colombia, .jamaica, .martinique, na /- French Guiana -/,
+           .paraguay, .nicaragua, na, .panama, .dominica,
+           .dominicanRepublic, .chile, .grenada, .turksAndCaicosIslands, .guyana ]),
+  (0xA4, [ .guatemala, .honduras, .aruba, na, .montserrat,
+           .trinidadAndTobago, .peru, .suriname, .uruguay, .stKitts,
+           .stLucia, .elSalvador, .haiti, .venezuela, .virginIslands ]),
+  (0xA5, [ na, na, na, na, na, na, na, na, na, na,
+           .mexico, .stVincent, .mexico, .mexico, .mexico ]),
+  (0xA6, [ na, na, na, na, na, na, na, na, na, na,
+           na, na, na, na, .stPierreAndMiquelon ]),
   -- Africa
-  (0xD0, [ "Cameroon", "Central African Republic", "Djiboutia", "Madagascar", "Mali",
-           "Angola", "Equatorial Guinea", "Gabon", "Guinea", "South Africa",
-           "Burkina Faso", "Republic of Congo", "Togo", "Benin", "Malawi" ]),
-  (0xD1, [ "Namibia", "Liberia", "Ghana", "Mauritania", "Sao Tome and Principe",
-           "Cape Verde", "Senegal", "Gambia", "Burundi", "Ascension Island",
-           "Botswana", "Comoros", "Tanzania", "Ethiopia", "Nigeria" ]),
-  (0xD2, [ "Sierra Leone", "Zimbabwe", "Mozambique", "Uganda", "Swaziland",
-           "Kenya", "Somalia", "Niger", "Chad", "Guinea-Bissau",
-           "DR Congo", "Cote d'Ivoire", "" /- Zanzibar in older editions -/, "Zambia", "Eritrea" ]),
-  (0xD3, [ "", "", "Western Sahara", "Cabinda", "Rwanda",
-           "Lesotho", "", "Seychelles", "", "Mauritius",
-           "", "Sudan", "", "", "" ]),
-  (0xD4, [ "", "", "", "", "", "", "", "", "", "South Sudan",
-           "", "", "", "", "" ]),
+  (0xD0, [ .cameroon, .centralAfricanRepublic, .djiboutia, .madagascar, .mali,
+           .angola, .equatorialGuinea, .gabon, .guinea, .southAfrica,
+           .burkinaFaso, .republicOfCongo, .togo, .benin, .malawi ]),
+  (0xD1, [ .namibia, .liberia, .ghana, .mauritania, .saoTomeAndPrincipe,
+           .capeVerde, .senegal, .gambia, .burundi, .ascensionIsland,
+           .botswana, .comoros, .tanzania, .ethiopia, .nigeria ]),
+  (0xD2, [ .sierraLeone, .zimbabwe, .mozambique, .uganda, .swaziland,
+           .kenya, .somalia, .niger, .chad, .guineaBissau,
+           .drCongo, .coteDIvoire, na /- Zanzibar in older editions -/, .zambia, .eritrea ]),
+  (0xD3, [ na, na, .westernSahara, .cabinda, .rwanda,
+           .lesotho, na, .seychelles, na, .mauritius,
+           na, .sudan, na, na, na ]),
+  (0xD4, [ na, na, na, na, na, na, na, na, na, .southSudan,
+           na, na, na, na, na ]),
   -- European broadcasting area
-  (0xE0, [ "Germany", "Algeria", "Andorra", "Israel", "Italy",
-           "Belgium", "Russia", "Palestine", "Albania", "Austria",
-           "Hungary", "Malta", "Germany", "", "Egypt" ]),
-  (0xE1, [ "Greece", "Cyprus", "San Marino", "Switzerland", "Jordan",
-           "Finland", "Luxembourg", "Bulgaria", "Denmark", "Gibraltar",
-           "Iraq", "United Kingdom", "Libya", "Romania", "France" ]),
-  (0xE2, [ "Morocco", "Czechia", "Poland", "Vatican", "Slovakia",
-           "Syria", "Tunisia", "", "Liechtenstein", "Iceland",
-           "Monaco", "Lithuania", "Serbia", "Spain", "Norway" ]),
+  (0xE0, [ .germany, .algeria, .andorra, .israel, .italy,
+           .belgium, .russia, .palestine, .albania, .austria,
+           .hungary, .malta, .germany, na, .egypt ]),
+  (0xE1, [ .greece, .cyprus, .sanMarino, .switzerland, .jordan,
+           .finland, .luxembourg, .bulgaria, .denmark, .gibraltar,
+           .iraq, .unitedKingdom, .libya, .romania, .france ]),
+  (0xE2, [ .morocco, .czechia, .poland, .vatican, .slovakia,
+           .syria, .tunisia, na, .liechtenstein, .iceland,
+           .monaco, .lithuania, .serbia, .spain, .norway ]),
   -- E3/4, E4/3, E5/3: as in IEC 62106-4:2018 (see `legacyCells` for the older editions)
-  (0xE3, [ "Montenegro", "Ireland", "Turkey", "", "Tajikistan",
-           "", "", "Netherlands", "Latvia", "Lebanon",
-           "Azerbaijan", "Croatia", "Kazakhstan", "Sweden", "Belarus" ]),
-  (0xE4, [ "Moldova", "Estonia", "Macedonia", "", "",
-           "Ukraine", "Kosovo", "Portugal", "Slovenia", "Armenia",
-           "Uzbekistan", "Georgia", "", "Turkmenistan", "Bosnia Herzegovina" ]),
-  (0xE5, [ "", "", "Kyrgyzstan", "", "", "", "", "", "", "",
-           "", "", "", "", "" ]),
+  (0xE3, [ .montenegro, .ireland, .turkey, na, .tajikistan,
+           na, na, .netherlands, .latvia, .lebanon,
+           .azerbaijan, .croatia, .kazakhstan, .sweden, .belarus ]),
+  (0xE4, [ .moldova, .estonia, .macedonia, na, na,
+           .ukraine, .kosovo, .portugal, .slovenia, .armenia,
+           .uzbekistan, .georgia, na, .turkmenistan, .bosniaHerzegovina ]),
+  (0xE5, [ na, na, .kyrgyzstan, na, na, na, na, na, na, na,
+           na, na, na, na, na ]),
   -- Asia and the Pacific
-  (0xF0, [ "Australia Capital Territory", "Australia New South Wales", "Australia Victoria",
-           "Australia Queensland", "Australia South Australia", "Australia Western Australia",
-           "Australia Tasmania", "Australia Northern Territory", "Saudi Arabia", "Afghanistan",
-           "Myanmar", "China", "North Korea", "Bahrein", "Malaysia" ]),
-  (0xF1, [ "Kiribati", "Bhutan", "Bangladesh", "Pakistan", "Fiji",
-           "Oman", "Nauru", "Iran", "New Zealand", "Solomon Islands",
-           "Brunei Darussalam", "Sri Lanka", "Taiwan", "South Korea", "Hong Kong" ]),
-  (0xF2, [ "Kuwait", "Qatar", "Cambodia", "Samoa", "India",
-           "Macao", "Vietnam", "Philippines", "Japan", "Singapore",
-           "Maldives", "Indonesia", "United Arab Emirates", "Nepal", "Vanuatu" ]),
-  (0xF3, [ "Laos", "Thailand", "Tonga", "", "",
-           "", "", "China", "Papua New Guinea", "",
-           "Yemen", "", "", "Micronesia", "Mongolia" ]),
-  (0xF4, [ "", "", "", "", "", "", "", "", "China", "",
-           "Marshall Islands", "", "", "", "" ])]
+  (0xF0, [ .australiaCapitalTerritory, .australiaNewSouthWales, .australiaVictoria,
+           .australiaQueensland, .australiaSouthAustralia, .australiaWesternAustralia,
+           .australiaTasmania, .australiaNorthernTerritory, .saudiArabia, .afghanistan,
+           .myanmar, .china, .northKorea, .bahrein, .malaysia ]),
+  (0xF1, [ .kiribati, .bhutan, .bangladesh, .pakistan, .fiji,
+           .oman, .nauru, .iran, .newZealand, .solomonIslands,
+           .bruneiDarussalam, .sriLanka, .taiwan, .southKorea, .hongKong ]),
+  (0xF2, [ .kuwait, .qatar, .cambodia, .samoa, .india,
+           .macao, .vietnam, .philippines, .japan, .singapore,
+           .maldives, .indonesia, .unitedArabEmirates, .nepal, .vanuatu ]),
+  (0xF3, [ .laos, .thailand, .tonga, na, na,
+           na, na, .china, .papuaNewGuinea, na,
+           .yemen, na, na, .micronesia, .mongolia ]),
+  (0xF4, [ na, na, na, na, na, na, na, na, .china, na,
+           .marshallIslands, na, na, na, na ])]
 
-/-- enumerator of the entity called `name` (`""` ↦ unknown = 0). A name that is not in
-`countryNames` gives 221 = `countryCount`, which is out of range and fails every check. -/
-def enumOf (name : String) : Nat := if name == "" then 0 else countryNames.idxOf name
-
-/-- IEC 62106-4: country enumerator for PI country nibble `nib` (0..15) and ECC byte `ecc`;
-0 = unknown for nibble 0 and for ECC bytes that are not allocated -/
-def iec (nib ecc : Nat) : Nat :=
-  if nib == 0 || 15 < nib then 0
-  else match iecColumns.lookup ecc with
-    | none => 0
-    | some col => enumOf (col.getD (nib - 1) "")
-
-/-- the same in the shape of `Generated.eccCountry`: row 0 = PI unknown, row n+1 = PI nibble n;
-256 ECC columns -/
-def iecTable : List (List Nat) :=
-  (List.range 17).map fun row => (List.range 256).map fun e => if row == 0 then 0 else iec (row - 1) e
 
 /-- the 23 allocated ECC bytes -/
 def eccCodes : List Nat := iecColumns.map Prod.fst
 
+/-- one row of the 256-column table (PI country nibble `k+1`), built left to right: zeros up to the
+next allocated ECC byte, then that column's entry. Linear in the row length. -/
+def iecRowFrom (k : Nat) : List (Nat × List Country) → Nat → List Nat
+  | [], pos => List.replicate (256 - pos) 0
+  | (e, col) :: rest, pos =>
+    List.replicate (e - pos) 0 ++ (col.getD k .unknown).enumerator :: iecRowFrom k rest (e + 1)
+
+/-- IEC 62106-4 in the shape of `Generated.eccCountry`: row 0 = PI unknown, row 1 = nibble 0 (not a
+valid country code), row n+1 = PI country nibble n; 256 ECC columns -/
+def iecTable : List (List Nat) :=
+  List.replicate 256 0 :: List.replicate 256 0 :: (List.range 15).map (fun k => iecRowFrom k iecColumns 0)
+
+/-- country enumerator for PI country nibble `nib` (0..15) and ECC byte `ecc` -/
+def iec (nib ecc : Nat) : Nat := (iecTable.getD (nib + 1) []).getD ecc 0
+
 /-- Cells in which EN 50067:1998 / IEC 62106:2009 / IEC 62106:2015 (Annex D) differ from the
 IEC 62106-4:2018 layout used above: (nibble, ECC, owner in the older editions). -/
-def legacyCells : List (Nat × Nat × String) :=
-  [(4, 0xE3, "Macedonia"), (3, 0xE4, "Kyrgyzstan"), (3, 0xE5, "")]
+def legacyCells : List (Nat × Nat × Country) :=
+  [(4, 0xE3, .macedonia), (3, 0xE4, .kyrgyzstan), (3, 0xE5, .unknown)]
 
 /-! ## C18 — programme types -/
 
@@ -383,6 +445,6 @@ def ptyWidth : PtyTbl → Option Nat
 
 /-- what `rdsparser_pty_lookup_*` must return for argument index `a` (argument mod 256) -/
 def ptyExpected (t : PtyTbl) (rbds : Bool) (a : Nat) : Option String :=
-  if a < 32 then (pty t rbds)[a]? else some "Unknown"
+  some (if a < 32 then (pty t rbds).getD a "!!" else "Unknown")
 
 end RDS.Reference
